@@ -11,7 +11,6 @@
 
 use crate::{
   blockgen::GenCfg,
-  chainbuild::build_chain,
   ctx::Ctx,
   hooks::Hooks,
   idx::IndexCfg,
@@ -114,7 +113,66 @@ pub fn run(ctx: &Ctx, rep: &mut Report) {
     gencfg.max_txs = *rng.pick(&[3usize, 6]);
     let n_blocks = if ctx.thorough() { rng.range(60, 160) } else { rng.range(35, 80) } as u32;
     let first_height: Option<u32> = if rng.chance(2, 3) { Some(rng.range(12, 30) as u32) } else { None };
-    let chain = build_chain(&mut rng, Network::Regtest, &gencfg, n_blocks);
+    // Built block by block so that "sweeper" transactions can be added after
+    // the first indexed height: one transaction spending 11-45 outputs created
+    // before that height (their values have to be fetched from the node, in one
+    // or several batches), with a reveal on a non-first input, so that the
+    // inscription's position depends on the values and order of what was fetched.
+    let chain = {
+      use crate::{blockgen::Gen, model::Model};
+      let mut cnode = Node::new(Network::Regtest);
+      let mut model = Model::new();
+      model.runes.network = Network::Regtest;
+      model.runes.first_rune_height = 0;
+      model.runes.keep_log = false;
+      model.apply_block(&cnode.block_at(0).unwrap());
+      let mut bgen = Gen::new(gencfg.clone());
+      let mut blocks = Vec::new();
+      let fh = first_height.unwrap_or(0);
+      let mut sweeps = if first_height.is_some() { rng.usize(1, 3) } else { 0 };
+      for _ in 0..n_blocks {
+        let height = model.height();
+        // before the first indexed height: many small outputs to sweep later
+        if first_height.is_some() && height < fh {
+          bgen.cfg.w_transfer = 12;
+          bgen.cfg.max_txs = 8;
+        } else {
+          bgen.cfg.w_transfer = gencfg.w_transfer;
+          bgen.cfg.max_txs = gencfg.max_txs;
+        }
+        let mut txdata = bgen.block(&mut rng, &model, height);
+        if sweeps > 0 && height > fh && rng.chance(1, 3) {
+          let spent: std::collections::BTreeSet<bitcoin::OutPoint> = txdata.iter().flat_map(|t| t.input.iter().map(|i| i.previous_output)).collect();
+          let mut old: Vec<_> = bgen.available(&model, height).into_iter().filter(|a| a.height < fh && a.value > 0 && !spent.contains(&a.outpoint)).collect();
+          rng.shuffle(&mut old);
+          old.truncate(rng.usize(11, 45));
+          if old.len() >= 11 {
+            let total: u64 = old.iter().map(|a| a.value).sum();
+            let j = rng.usize(1, old.len() - 1);
+            let mut witnesses = vec![bitcoin::Witness::new(); old.len()];
+            let inscription = ord::Inscription { content_type: Some(b"text/plain".to_vec()), body: Some(b"swept".to_vec()), ..Default::default() };
+            let script = inscription.append_reveal_script_to_builder(bitcoin::script::Builder::new().push_slice([7u8; 32]).push_opcode(bitcoin::opcodes::all::OP_CHECKSIG)).into_script();
+            witnesses[j].push(script.as_bytes());
+            witnesses[j].push([0xc0u8; 33]);
+            let fee = rng.below(total.min(5000) + 1);
+            let outputs = vec![
+              bitcoin::TxOut { value: bitcoin::Amount::from_sat((total - fee) / 2), script_pubkey: bgen.scripts[0].clone() },
+              bitcoin::TxOut { value: bitcoin::Amount::from_sat(total - fee - (total - fee) / 2), script_pubkey: bgen.scripts[1].clone() },
+            ];
+            txdata.push(bgen.finish(old.clone(), outputs, witnesses));
+            sweeps -= 1;
+            rep.count("sweeper_transactions");
+            rep.max("max_inputs_fetched_by_one_sweeper", old.len() as u64);
+          }
+        }
+        let block = cnode.push_block(txdata);
+        model.apply_block(&block);
+        blocks.push(block);
+      }
+      crate::chainbuild::BuiltChain { network: Network::Regtest, blocks, model, bgen }
+    };
+    // how many transactions one getrawtransaction batch may carry
+    let rpc_limit = *rng.pick(&[None, None, Some(1u32), Some(2), Some(4)]);
     // same override for every configuration of this case
     ord::verif::set_first_heights(first_height, first_height);
     let dir = std::path::PathBuf::from(format!("{scratch}/c15-{case}"));
@@ -128,6 +186,7 @@ pub fn run(ctx: &Ctx, rep: &mut Report) {
       cfg.addresses = bits & 2 != 0;
       cfg.transactions = bits & 4 != 0;
       cfg.commit_interval = Some(*rng.pick(&[1usize, 3, 5000]));
+      cfg.bitcoin_rpc_limit = rpc_limit;
       let d = dir.join(format!("cfg{bits}"));
       std::fs::create_dir_all(&d).unwrap();
       let mut node = Node::new(Network::Regtest);
